@@ -1,7 +1,7 @@
 (* Single entry point val -> val for every modelled function; used by the extracted
    runner and by the generated in-Coq case files. *)
 From Coq Require Import ZArith List Bool.
-From Gabi Require Import Val ModArith Bytes Der Sha256 HashTool GoSem ParamsDef ZkProof Keys RangeProof NonRev Core CL Prover RangeSound Revocation NonRevProver Keyshare MathUtil.
+From Gabi Require Import Val ModArith Bytes Der Sha256 HashTool GoSem ParamsDef ZkProof Keys RangeProof NonRev Core CL Prover RangeSound Revocation NonRevProver Keyshare MathUtil Codec FilePerm KeyDoc.
 Import ListNotations.
 Open Scope Z_scope.
 
@@ -385,6 +385,19 @@ Definition d_sieve (v : val) : val := ret (
 Definition d_prepare_bytes (v : val) : val := ret (
   match v with VL [bs; b] => do bs <- as_LZ bs; do b <- as_Z b; Some (of_LZ (prepare_bytes bs b)) | _ => None end).
 
+Definition d_marshal_text (v : val) : val := ret (do z <- as_Z v; Some (of_outcome of_LZ (marshal_text z))).
+Definition d_unmarshal_text (v : val) : val := ret (do l <- as_LZ v; Some (of_outcome VZ (unmarshal_text l))).
+
+(* decimal text of a non-negative integer as byte values *)
+Fixpoint dec_digits (fuel : nat) (z : Z) (acc : list Z) : list Z :=
+  match fuel with
+  | O => acc
+  | S f => if z <? 10 then (48 + z) :: acc else dec_digits f (z / 10) ((48 + z mod 10) :: acc)
+  end.
+Definition decimal_text (z : Z) : list Z :=
+  if z <? 0 then 45 :: dec_digits (Z.to_nat (bitlen z) + 1) (- z) [] else dec_digits (Z.to_nat (bitlen z) + 1) z [].
+Definition d_decimal (v : val) : val := ret (do z <- as_Z v; Some (of_LZ (decimal_text z))).
+
 Definition dispatch (fn : Z) (v : val) : val :=
   match fn with
   | 1501 => d_hash_commit v
@@ -418,6 +431,12 @@ Definition dispatch (fn : Z) (v : val) : val :=
   | 1103 => d_nr_build v
   | 1401 => d_keyshare_response v
   | 1402 => d_ks_commitments v
+  | 1801 => d_marshal_text v
+  | 1802 => d_unmarshal_text v
+  | 1803 => d_decimal v
+  | 1804 => d_privkey_write v
+  | 1805 => d_parse_pubkey v
+  | 1806 => d_parse_privkey v
   | 1901 => d_mod_inverse v
   | 1902 => d_modpow v
   | 1903 => d_legendre v
